@@ -3,6 +3,7 @@ C08 — Segmentation is lossless and every segment fits a single short message.
 (splitters of utils.py after repair c0f1520; PDU-level cloning is covered with C03's model)
 -/
 import SmppVerif.Lemmas.Split
+import SmppVerif.Gen.Site
 
 namespace SmppVerif.Props.C08
 open SmppVerif SmppVerif.Split SmppVerif.Lemmas.Split SmppVerif.Gen.Consts
@@ -207,6 +208,12 @@ theorem gsm_udh_septets : (6 * 8 + 6) / 7 + 153 = 160 ∧ (7 * 8 + 6) / 7 + 152 
 example : (splitSms .auto (List.replicate 200 0x20AC)).map (·.map List.length) = .ok [254, 146] := by
   decide +kernel
 
+/-- TIE TO THE SOURCE (regenerated on every run, Gen/Site.lean): in the Sender loop the segments of a message are made (`clone()` of the message, in a loop of its own) BEFORE the loop that sends them starts: what another task does to the message object while a segment is being sent cannot reach the segments still to come -/
+theorem segments_cloned_before_sending :
+    Gen.Site.dequeueLoop.filter (fun x => x ∈ ["for", "clone", "end-for", "_send_data", "def", "end-def"]) =
+      ["for", "clone", "end-for", "for", "_send_data", "end-for"] := by
+  decide
+
 end SmppVerif.Props.C08
 
 #print axioms SmppVerif.Props.C08.consts_ok
@@ -214,3 +221,4 @@ end SmppVerif.Props.C08
 #print axioms SmppVerif.Props.C08.udh_segments
 #print axioms SmppVerif.Props.C08.udh_fields
 #print axioms SmppVerif.Props.C08.gsm_udh_septets
+#print axioms SmppVerif.Props.C08.segments_cloned_before_sending
